@@ -32,6 +32,12 @@ def scripts(rnd, quick):
                                 va = rnd.choice([addr, 0, 0xFFFFFFFF, 0x00C000DB])
                                 data = [rnd.choice([192, 219, rnd.randint(0, 255)]) for _ in range(n * (2 if mem16 else 1))]
                                 sc.append(rx(tr, mem16, cap, w, verdict=verdict, vaddr=va, data=data))
+            # reads whose answer fits the block exactly / by one word more or less (16-bit and 8-bit semantics alike)
+            for ws16 in (0, 1):
+                room = cap - (14 if tr == 0 else 12)
+                for n in sorted(set([room // (2 if ws16 else 1) + d for d in (-1, 0, 1)])):
+                    sc.append(rx(tr, mem16, cap, wire(tr, request(tr, 0, ws16, rnd.choice(seqs), rnd.choice(addrs), n)), verdict=0,
+                                 data=[rnd.randint(0, 255) for _ in range(200)]))
             # reads of 2^16 .. 2^32 - 1 words: no buffer can hold the answer - transmit overflow, memory untouched (also C09)
             for ws16 in (0, 1):
                 for n in (0x10000, 0x7FFFFFFF, 0x80000000, 0x80000001, 0x80000005, 0x8000FFFF, 0xFFFFFFFF):
